@@ -33,7 +33,7 @@ FLOOR_KEYS = ["op:set_laws:u_laws_None:new_free", "op:set_laws:u_laws_None:new_b
 
 
 def floors(ctx):
-    f = {"evaluations": 20000 if ctx.tier == "quick" else 200000, "histories": 1000, "rule_attribute_checks": 100}
+    f = {"evaluations": 20000 if ctx.tier == "quick" else 200000, "histories": 1000, "rule_attribute_checks": 100, "whitelists_passed_as_proxy": 10}
     for k in FLOOR_KEYS:
         f[k] = 1
     return f
@@ -55,7 +55,12 @@ def rule_attributes(ctx, rng):
             if n % 3 == 2:
                 wl = {}
         expect_wl = None if wl is None else {k: dict(v) for k, v in wl.items()}
-        laws = UniverseLaws(edge_whitelist=wl, **vals)
+        given = wl
+        if wl is not None and n % 4 == 1:
+            # a read-only VIEW of somebody's dict is still a live view: it must be copied like any mapping
+            given = types.MappingProxyType(wl)
+            ctx.count("whitelists_passed_as_proxy")
+        laws = UniverseLaws(edge_whitelist=given, **vals)
         ctx.count("rule_attribute_checks")
         ctx.evaluated()
         case = {"rule_attrs": True, "n": n, "vals": vals}
